@@ -1,4 +1,5 @@
 use std::cmp::{max, min};
+use std::convert::TryInto;
 use std::fmt::Debug;
 use std::marker::PhantomData;
 
@@ -490,6 +491,9 @@ impl<T> Compressor<T> where T: NumberLike {
         "attempted to write header after footer"
       ));
     }
+    // validate the flags (delta encoding order) before writing anything, so
+    // that a rejected header adds no bytes
+    let _: Vec<bool> = (&self.flags).try_into()?;
     self.writer.write_aligned_bytes(&MAGIC_HEADER)?;
     self.writer.write_aligned_byte(T::HEADER_BYTE)?;
     self.flags.write(&mut self.writer)?;
@@ -520,13 +524,12 @@ impl<T> Compressor<T> where T: NumberLike {
       ));
     }
 
-    self.writer.write_aligned_byte(MAGIC_CHUNK_BYTE)?;
-
     let n = nums.len();
-    let pre_meta_bit_idx = self.writer.bit_size();
 
+    // Nothing is written until the prefixes have been trained, so that a
+    // rejected chunk (e.g. compression level too high) adds no bytes.
     let order = self.flags.delta_encoding_order;
-    let (mut metadata, post_meta_byte_idx) = if order == 0 {
+    let (mut metadata, pre_meta_bit_idx, post_meta_byte_idx) = if order == 0 {
       let unsigneds = nums.iter()
         .map(|x| x.to_unsigned())
         .collect::<Vec<_>>();
@@ -536,6 +539,8 @@ impl<T> Compressor<T> where T: NumberLike {
         &self.flags,
         n,
       )?;
+      self.writer.write_aligned_byte(MAGIC_CHUNK_BYTE)?;
+      let pre_meta_bit_idx = self.writer.bit_size();
       let prefix_metadata = PrefixMetadata::Simple {
         prefixes: prefixes.clone(),
       };
@@ -552,7 +557,7 @@ impl<T> Compressor<T> where T: NumberLike {
         &unsigneds,
         &mut self.writer
       )?;
-      (metadata, post_meta_idx)
+      (metadata, pre_meta_bit_idx, post_meta_idx)
     } else {
       let delta_moments = DeltaMoments::from(nums, order);
       let deltas = delta_encoding::nth_order_deltas(nums, order);
@@ -565,6 +570,8 @@ impl<T> Compressor<T> where T: NumberLike {
         &self.flags,
         n,
       )?;
+      self.writer.write_aligned_byte(MAGIC_CHUNK_BYTE)?;
+      let pre_meta_bit_idx = self.writer.bit_size();
       let prefix_metadata = PrefixMetadata::Delta {
         delta_moments,
         prefixes: prefixes.clone(),
@@ -582,7 +589,7 @@ impl<T> Compressor<T> where T: NumberLike {
         &unsigneds,
         &mut self.writer
       )?;
-      (metadata, post_meta_idx)
+      (metadata, pre_meta_bit_idx, post_meta_idx)
     };
     metadata.compressed_body_size = self.writer.byte_size() - post_meta_byte_idx;
     metadata.update_write_compressed_body_size(&mut self.writer, pre_meta_bit_idx);
